@@ -52,7 +52,7 @@ func parseVal(v []byte) (w int, c uint32, ok bool) {
 // ------------------------------------------------------------------ run configuration
 
 type runCfg struct {
-	Seed        uint64 `json:"seed"`
+	Seed        seedT  `json:"seed"`
 	Procs       int    `json:"gomaxprocs"`
 	Writers     int    `json:"writers"`
 	Getters     int    `json:"getters"`
@@ -75,10 +75,28 @@ type runCfg struct {
 	Trace       bool   `json:"trace"`
 }
 
+// seedT travels through JSON as a decimal string (float64 round trips would lose its low bits).
+type seedT uint64
+
+func (s seedT) MarshalJSON() ([]byte, error) { return []byte(fmt.Sprintf("\"%d\"", uint64(s))), nil }
+func (s *seedT) UnmarshalJSON(b []byte) error {
+	var v uint64
+	_, err := fmt.Sscanf(strings.Trim(string(b), "\""), "%d", &v)
+	if err != nil {
+		var f float64
+		if _, err2 := fmt.Sscanf(string(b), "%g", &f); err2 != nil {
+			return err
+		}
+		v = uint64(f)
+	}
+	*s = seedT(v)
+	return nil
+}
+
 var windows = []int{1, 2, 3, 4, 5, 6, 8}
 
 func stressCfg(r *vlib.RNG, idx int) runCfg {
-	c := runCfg{Seed: r.Uint64(), DurMs: 500}
+	c := runCfg{Seed: seedT(r.Uint64()), DurMs: 500}
 	c.Procs = []int{1, 2, 4, 16}[r.Intn(4)]
 	c.Writers = []int{2, 3, 4, 8, 16}[r.Intn(5)]
 	c.Getters = r.Range(2, 6)
@@ -107,7 +125,7 @@ func stressCfg(r *vlib.RNG, idx int) runCfg {
 }
 
 func traceCfg(r *vlib.RNG, idx int) runCfg {
-	c := runCfg{Seed: r.Uint64(), Trace: true}
+	c := runCfg{Seed: seedT(r.Uint64()), Trace: true}
 	c.Procs = []int{1, 2, 4, 16}[idx%4]
 	c.Writers = r.Range(2, 3)
 	c.Getters = r.Range(1, 2)
@@ -161,7 +179,7 @@ func (h *hooks) stretch(window int) {
 	if f == -1 {
 		return
 	}
-	x := mix(h.cfg.Seed + atomic.AddUint64(&h.ctr, 1))
+	x := mix(uint64(h.cfg.Seed) + atomic.AddUint64(&h.ctr, 1))
 	if f != 0 && f != window {
 		if x%97 != 0 {
 			return
@@ -1038,7 +1056,7 @@ func doRun(cfg runCfg) (rr runResult) {
 		leveldb.VerifSetCommitHook(r.h.tr.commit)
 	}
 	leveldb.VerifSetHooks(r.h.yield, r.h.event)
-	rng := vlib.NewRNG(cfg.Seed)
+	rng := vlib.NewRNG(uint64(cfg.Seed))
 	nReaders := cfg.Getters + cfg.Snappers + cfg.Iters
 	r.gets = make([][]obsGet, cfg.Getters)
 	r.hass = make([][]obsHas, cfg.Getters)
@@ -1186,7 +1204,7 @@ func doRun(cfg runCfg) (rr runResult) {
 		rr.Counts["traced_actions"] += len(acts)
 		if len(acts) <= 1500 {
 			rr.TraceCases = append(rr.TraceCases, renderTrace(true, acts))
-			if neg, name := negativeControl(acts, int(cfg.Seed%4)); neg != nil {
+			if neg, name := negativeControl(acts, int(uint64(cfg.Seed)%4)); neg != nil {
 				rr.TraceCases = append(rr.TraceCases, renderTrace(false, neg))
 				rr.Counts["negative_control_"+name]++
 			}
